@@ -1,5 +1,6 @@
 """C12 -- each request is answered at most once, to the right requester (spec/Reply.tla)."""
 import json
+import resource
 import vlib
 
 PID = "C12"
@@ -28,6 +29,15 @@ CFG = {
 ENV = {"ASAN_OPTIONS": vlib.ASAN_ENV + ":symbolize=0"}
 CHUNK = 4000
 MAX_FAULTS = 150     # crashes/hangs after which the replay is cut short (a broken tree costs ~0.1 s per fault)
+
+
+def cpu_mark(ck, name, _last=[None]):
+    """CPU seconds (children + self) spent since the previous mark -- wall time depends on the machine's load."""
+    a, b = resource.getrusage(resource.RUSAGE_CHILDREN), resource.getrusage(resource.RUSAGE_SELF)
+    now = a.ru_utime + a.ru_stime + b.ru_utime + b.ru_stime
+    if _last[0] is not None:
+        ck.notes.setdefault("phase_cpu_s", {})[name] = round(now - _last[0], 1)
+    _last[0] = now
 
 
 def match(exp, obs, step, rec, prev):
@@ -204,15 +214,18 @@ def run(tier):
     ck = vlib.Check(PID, tier)
     exe = vlib.build_driver("reply", ["reply.c"])
 
+    cpu_mark(ck, "build")
     # 1. model: tiers agree (id codec), the reply protocol satisfies the statement on the ghost
     res = vlib.tlc("MC_Reply", cfg["mc"], coverage=False)
     ck.add_tlc(res, "exhaustive " + cfg["mc"])
 
+    cpu_mark(ck, "model_check")
     # 2. binding A: every transition of the control skeleton replayed into the real code
     gen = vlib.tlc("Gen_Reply", cfg["gen"], workers=4)
     if gen.error or gen.violation:
         raise vlib.MachineryError("behaviour export failed: %s %s" % (gen.error, gen.violation))
     behs = vlib.parse_behaviours(gen.out)
+    cpu_mark(ck, "behaviour_export")
     # the reply-context behaviours first: a broken id codec must not hide them
     behs.sort(key=lambda b: 0 if b[0]["arg"]["mode"] == "ctx" else 1)
     recs, done = run_chunks(exe, behs)
@@ -245,6 +258,7 @@ def run(tier):
     if done < len(behs):
         ck.notes["replay_cut_short"] = "more than %d crashes; %d of %d behaviours replayed" % (MAX_FAULTS, done, len(behs))
 
+    cpu_mark(ck, "replay")
     # 3. binding B: recorded executions at production sizes validated by TLC
     idh = [gen_id_history(ck, cfg["nrand"])]
     recs_i, _ = vlib.run_driver(exe, vlib.to_script(idh), env=ENV)
@@ -254,6 +268,7 @@ def run(tier):
     recs_c, _ = vlib.run_driver(exe, vlib.to_script(hist), env=ENV)
     ev_c = drop_skipped(vlib.merge_trace(hist, recs_c))
     ok_c, m_c = validate(ck, ev_c, "ctx", hist)
+    cpu_mark(ck, "trace_validation")
     by2 = vlib.group_records(recs_c)
     ntb = 0
     for b, beh in enumerate(hist):
